@@ -889,6 +889,7 @@ pub fn run(p: &[String]) -> Vec<String> {
             let mut full: Vec<u8> = Vec::new();
             let total = match kind.as_str() {
                 "csv" => 3usize,
+                "xlsx_light" => { let _ = umya_spreadsheet::writer::xlsx::write_writer_light(&book, &mut full); 0 }
                 _ => { let _ = umya_spreadsheet::writer::xlsx::write_writer(&book, &mut full); 0 }
             };
             let _ = total;
